@@ -532,7 +532,7 @@ async def _execute(loop, program, observe=None):
     cfg = program.get('cfg', {})
     world = simnet.World(loop)
     scn = Scenario(world, program)
-    conn = simnet.Conn(world, message_mode=bool(cfg.get('msg')), read_buffer=tuple(cfg.get('rbuf', (1024, 1024))))
+    conn = simnet.ConnSet()
     frag = cfg.get('frag', [None, None])
     ka = timedelta(seconds=cfg.get('ka', 100000.0))
     life = timedelta(seconds=cfg.get('life', 1000000.0))
@@ -546,8 +546,9 @@ async def _execute(loop, program, observe=None):
         ckw['honor_lease'] = True
         ckw['request_queue_size'] = lease.get('queue', 0)
     raw_side = cfg.get('raw')
-    raw = RawPeer(world, conn, raw_side) if raw_side else None
-    scn.raw = raw
+    scn.raw = None
+    scn.raws = []
+    scn.servers = []
     scn.sock = {}
     ckw.update(cfg.get('client_kwargs', {}))
     skw.update(cfg.get('server_kwargs', {}))
@@ -556,27 +557,74 @@ async def _execute(loop, program, observe=None):
         ckw['setup_payload'] = A.mk_payload(d, m)
     for key in ('data_encoding', 'metadata_encoding'):
         if cfg.get(key) is not None:
-            ckw[key] = cfg[key]
-    if raw_side != 's':
-        if cfg.get('lease') and cfg['lease'].get('server_without_publisher'):
-            skw.pop('lease_publisher', None)
-        scn.sock['s'] = RSocketServer(conn.transport['s'], handler_factory=make_handler_class(scn, 's'),
-                                      fragment_size_bytes=frag[1], **common, **skw)
+            val = cfg[key]
+            if isinstance(val, dict) and 'enum' in val:
+                from rsocket.extensions.mimetypes import WellKnownMimeTypes
+                val = getattr(WellKnownMimeTypes, val['enum'])
+            elif isinstance(val, dict) and 'str' in val:
+                val = val['str']
+            ckw[key] = val
+    if cfg.get('lease') and cfg['lease'].get('server_without_publisher'):
+        skw.pop('lease_publisher', None)
+    connect_scripts = cfg.get('connect')
+    if connect_scripts and not isinstance(connect_scripts[0], (list, tuple)) and connect_scripts[0] is not None:
+        connect_scripts = [connect_scripts]
+
+    def open_connection(index):
+        """A fresh connection: links, tapped transports, and a fresh server side (real server or raw peer)."""
+        c = simnet.Conn(world, message_mode=bool(cfg.get('msg')), read_buffer=tuple(cfg.get('rbuf', (1024, 1024))),
+                        index=index)
+        c.tag()
+        conn.conns.append(c)
+        world.ev('net', 'connection_opened', cx=index)
+        if raw_side:
+            r = RawPeer(world, c, raw_side)
+            r.cx = index
+            scn.raw = r
+            scn.raws.append(r)
+        if raw_side != 's':
+            srv = RSocketServer(c.transport['s'], handler_factory=make_handler_class(scn, 's'),
+                                fragment_size_bytes=frag[1], **common, **skw)
+            scn.sock['s'] = srv
+            scn.servers.append(srv)
+            if cfg.get('idmask'):
+                srv._stream_control._maximum_stream_id = cfg['idmask']
+        if connect_scripts and index < len(connect_scripts) and connect_scripts[index]:
+            c.transport['c'].connect_script = tuple(connect_scripts[index])
+        return c
+
+    open_connection(0)
+    raw = scn.raw
+    connect_task = None
     if raw_side != 'c':
-        client = RSocketClient(single_transport_provider(conn.transport['c']),
-                               handler_factory=make_handler_class(scn, 'c'),
+        ntransports = cfg.get('transports', 1)
+
+        async def provider():
+            delays = cfg.get('provider_delay') or []
+            for i in range(ntransports):
+                c = conn.conns[0] if i == 0 else open_connection(i)
+                if i < len(delays) and delays[i]:
+                    # the provider itself takes a while to produce a transport (name resolution, load balancing, ...)
+                    world.ev('c', 'provider_suspends', cx=i, ticks=delays[i])
+                    for _ in range(delays[i]):
+                        await asyncio.sleep(0)
+                world.ev('c', 'provider_yield', cx=i)
+                yield c.transport['c']
+
+        client = RSocketClient(provider(), handler_factory=make_handler_class(scn, 'c'),
                                fragment_size_bytes=frag[0], **common, **ckw)
         scn.sock['c'] = client
-        cs = cfg.get('connect')
-        if cs:
-            conn.transport['c'].connect_script = tuple(cs)
-        await client.connect()
+        if cfg.get('connect_async'):
+            connect_task = asyncio.ensure_future(client.connect())
+            await asyncio.sleep(0)  # connect() has begun (requests are only issued after that)
+        else:
+            await client.connect()
     elif cfg.get('raw_setup', True):
         raw.send_value({'type': 'SETUP', 'sid': 0, 'keepalive': 100000000, 'lifetime': 1000000000,
                         'metadata_mime': b'application/json', 'data_mime': b'application/json', 'metadata': None,
                         'data': b'', 'lease': bool(cfg.get('raw_setup_lease'))})
     idmask = cfg.get('idmask')
-    if idmask:
+    if idmask and connect_task is None:
         for s in scn.sock.values():
             s._stream_control._maximum_stream_id = idmask
     regime = {'mode': cfg.get('regime', 'pumped')}
@@ -667,21 +715,29 @@ async def _execute(loop, program, observe=None):
         elif name == 'lease':
             if lease_pub is not None:
                 lease_pub.publish(op[1], op[2])
+        elif name == 'reconnect':
+            if 'c' in scn.sock:
+                world.ev('c', 'reconnect_call')
+                await scn.sock['c'].reconnect()
+        elif name == 'await_connect':
+            if connect_task is not None:
+                await connect_task
         elif name == 'rawframe':
-            if raw is not None:
-                raw.send_value(op[1])
+            if scn.raw is not None:
+                scn.raw.send_value(op[1])
         elif name == 'rawbody':
-            if raw is not None:
-                raw.send_body(op[1])
+            if scn.raw is not None:
+                scn.raw.send_body(op[1])
         elif name == 'rawbytes':
-            if raw is not None and not conn.message_mode:
-                raw.send_raw_bytes(op[1])
+            if scn.raw is not None and not conn.message_mode:
+                scn.raw.send_raw_bytes(op[1])
         elif name == 'rawreq':
-            if raw is not None:
+            if scn.raw is not None:
                 scn.raw_request(next_start[0], op[1] if len(op) > 1 else None)
                 next_start[0] += 1
         elif name == 'rawreuse':
             # the raw peer sends a new request frame on the id of a (possibly live) interaction it opened earlier
+            raw = scn.raw
             if raw is not None:
                 uid = started_uid(op[1])
                 if uid is not None and scn.st[uid]['sid']:
@@ -692,7 +748,7 @@ async def _execute(loop, program, observe=None):
                     world.ev(raw.side, 'raw_reuse', uid=uid, k=op[2], sid=v['sid'])
                     raw.send_value(v)
         elif name == 'rawf':
-            if raw is not None:
+            if scn.raw is not None:
                 uid = started_uid(op[1])
                 if uid is not None:
                     scn.raw_stream_frame(uid, op[2], op[3] if len(op) > 3 else None)
@@ -713,8 +769,7 @@ async def _execute(loop, program, observe=None):
         regime['mode'] = 'pumped'
         conn.unblock('c')
         conn.unblock('s')
-        if raw is not None and not program.get('heal_raw', False):
-            pass
+
         quiet = False
         stale = 0
         if lease_pub is not None and program.get('heal_lease', True):
